@@ -67,7 +67,10 @@ EXPLANATION = ("Theorems in coq/Props/C18.v over all call histories; corresponde
                "whose queues are drained at once), the calls newly received by every sink after each call and "
                "whether the call raised are compared with coq/Model/Router.v and judged by Spec.C18.spec_okb; per "
                "status call the StreamToQueue chain is also popped by a chain of consuming routers and the route "
-               "code that arrives is compared with the original.")
+               "code that arrives is compared with the original. Sampled beyond the model's op type: add_rule calls "
+               "made by a registered sink from inside its own startTestRun while a run is being opened (observed as "
+               "those calls followed by Start), and the empty routing code '' for the outermost StreamToQueue and "
+               "as a rule's route_prefix.")
 
 SEGS = ["0", "1", "ab", "xyz", "q7", "long-seg", "Z", ""]
 # segment 7 is the EMPTY string: used only as the routing code of the outermost StreamToQueue and as a rule's
